@@ -696,9 +696,60 @@ class SyncWorld(World):
 
     def app_disconnect_with_id(self, slot, cid):
         def call():
-            self.server.disconnect(self.sids.get(slot, 'unknown-sid'))
+            self.server.disconnect(None if slot is None else self.sids.get(slot, 'unknown-sid'))
             self.out.append({'k': 'ret', 'cid': cid})
         return self.api(call)
+
+    def app_transport(self, slot):
+        def call():
+            try:
+                self.out.append({'k': 'transport', 's': slot,
+                                 'v': self.server.transport(self.sids[slot])})
+            except KeyError:
+                self.out.append({'k': 'keyerr', 's': slot})
+        return self.api(call)
+
+    def app_session_ctx(self, slot, tok):
+        def call():
+            try:
+                with self.server.session(self.sids[slot]) as d:
+                    self.out.append({'k': 'sess', 's': slot, 'ud': d.get('tok', 0)})
+                    d['tok'] = tok
+            except KeyError:
+                self.out.append({'k': 'keyerr', 's': slot})
+        return self.api(call)
+
+    def unknown_sid(self, variant):
+        """An id no session has: never issued, or a near miss of an issued one."""
+        issued = [self.sids[k] for k in sorted(self.sids)]
+        if not issued or variant == 0:
+            return 'never-issued'
+        base = issued[variant % len(issued)]
+        return ['', base[:-1], base.swapcase() if base.swapcase() != base else base + 'y',
+                base + 'x', ' ' + base][variant % 5]
+
+    def app_unknown(self, call, variant, cid):
+        sid = self.unknown_sid(variant)
+
+        def run():
+            try:
+                if call == 'send':
+                    self.server.send(sid, 'nobody')
+                elif call == 'disconnect':
+                    self.server.disconnect(sid)
+                    self.out.append({'k': 'ret', 'cid': cid})
+                elif call == 'get':
+                    self.server.get_session(sid)
+                elif call == 'save':
+                    self.server.save_session(sid, {'tok': 99})
+                elif call == 'transport':
+                    self.server.transport(sid)
+                elif call == 'sessctx':
+                    with self.server.session(sid) as d:
+                        d['tok'] = 98
+            except KeyError:
+                self.out.append({'k': 'keyerr', 's': 0})
+        return self.api(run)
 
     def app_save_session(self, slot, tok):
         def call():
@@ -1013,9 +1064,61 @@ class AsyncWorld(World):
 
     def app_disconnect_with_id(self, slot, cid):
         async def call():
-            await self.server.disconnect(self.sids.get(slot, 'unknown-sid'))
+            await self.server.disconnect(None if slot is None
+                                         else self.sids.get(slot, 'unknown-sid'))
             self.out.append({'k': 'ret', 'cid': cid})
         return self.api(call)
+
+    def app_transport(self, slot):
+        async def call():
+            try:
+                self.out.append({'k': 'transport', 's': slot,
+                                 'v': self.server.transport(self.sids[slot])})
+            except KeyError:
+                self.out.append({'k': 'keyerr', 's': slot})
+        return self.api(call)
+
+    def app_session_ctx(self, slot, tok):
+        async def call():
+            try:
+                async with self.server.session(self.sids[slot]) as d:
+                    self.out.append({'k': 'sess', 's': slot, 'ud': d.get('tok', 0)})
+                    d['tok'] = tok
+            except KeyError:
+                self.out.append({'k': 'keyerr', 's': slot})
+        return self.api(call)
+
+    def unknown_sid(self, variant):
+        """An id no session has: never issued, or a near miss of an issued one."""
+        issued = [self.sids[k] for k in sorted(self.sids)]
+        if not issued or variant == 0:
+            return 'never-issued'
+        base = issued[variant % len(issued)]
+        return ['', base[:-1], base.swapcase() if base.swapcase() != base else base + 'y',
+                base + 'x', ' ' + base][variant % 5]
+
+    def app_unknown(self, call, variant, cid):
+        sid = self.unknown_sid(variant)
+
+        async def run():
+            try:
+                if call == 'send':
+                    await self.server.send(sid, 'nobody')
+                elif call == 'disconnect':
+                    await self.server.disconnect(sid)
+                    self.out.append({'k': 'ret', 'cid': cid})
+                elif call == 'get':
+                    await self.server.get_session(sid)
+                elif call == 'save':
+                    await self.server.save_session(sid, {'tok': 99})
+                elif call == 'transport':
+                    self.server.transport(sid)
+                elif call == 'sessctx':
+                    async with self.server.session(sid) as d:
+                        d['tok'] = 98
+            except KeyError:
+                self.out.append({'k': 'keyerr', 's': 0})
+        return self.api(run)
 
     def app_save_session(self, slot, tok):
         async def call():
@@ -1058,19 +1161,33 @@ def blocked_signature(w, rec):
                      'event': 'event.wait', 'sleep': 'sleep'}.get(b[0], b[0])
             q = b[1] if len(b) > 1 else None
     else:
-        try:
-            for fr in task.get_stack():
-                pass
-            coro = task.get_coro()
-            names = []
+        def chain(t):
+            names, qq, kids = [], None, []
+            coro = t.get_coro()
             while coro is not None:
                 names.append(getattr(coro, '__qualname__', type(coro).__name__))
                 fr = getattr(coro, 'cr_frame', None)
                 if fr is not None and 'self' in fr.f_locals and \
                         type(fr.f_locals['self']).__name__ == 'Queue' and \
                         names[-1].endswith('join'):
-                    q = fr.f_locals['self']
+                    qq = fr.f_locals['self']
+                if fr is not None and names[-1] == '_wait' and 'fs' in fr.f_locals:
+                    kids = [k for k in fr.f_locals['fs'] if not k.done()]
                 coro = getattr(coro, 'cr_await', None)
+            return names, qq, kids
+        try:
+            names, q, kids = chain(task)
+            if kids:
+                # disconnect() without a sid waits for one close() task per client: report
+                # where a pending one is blocked, preferring one that is not a join() on a
+                # polling session
+                def upg(qq):
+                    return any(so is not None and so.queue is qq and so.upgraded
+                               for so in w.socks.values())
+                cs = [chain(k) for k in kids]
+                odd = [c for c in cs if not any(n.endswith('Queue.join') for n in c[0])
+                       or upg(c[1])]
+                names, q, _ = (odd or cs)[0]
             if any(n.endswith('Queue.join') for n in names):
                 where = 'queue.join'
             elif any(n.endswith('Queue.get') for n in names):
